@@ -72,10 +72,14 @@ func isCall(fset *token.FileSet, n ast.Node, fun string) (*ast.CallExpr, bool) {
 }
 
 func (p *pkg) tryCoq(x ast.Expr, vars map[string]string, wrap bool) (string, string) {
+	return p.tryCoqWide(x, vars, wrap, nil)
+}
+
+func (p *pkg) tryCoqWide(x ast.Expr, vars map[string]string, wrap bool, wide []string) (string, string) {
 	if x == nil {
 		return "", ""
 	}
-	e := &env{fset: p.fset, vars: vars, wrap: wrap}
+	e := &env{fset: p.fset, vars: vars, wrap: wrap, wide: wide}
 	s, err := e.toCoq(x)
 	if err != nil {
 		return "", err.Error()
@@ -105,6 +109,7 @@ func extractToxics(repo string, o *out) {
 	// ------------------------------------------------------------ slicer.chunk
 	{
 		var base, mid, guard, randn, adj, src string
+		wide := []string{"avg", "var", "r"} // attribute values and draws range over all of int; offsets into a chunk do not
 		if fd := p.method("SlicerToxic", "chunk"); fd != nil && fd.Body != nil && len(fd.Type.Params.List) >= 1 {
 			t := recvName(fd)
 			var names []string
@@ -123,7 +128,7 @@ func extractToxics(repo string, o *out) {
 							if len(s.Body.List) == 1 {
 								if r, ok := s.Body.List[0].(*ast.ReturnStmt); ok && len(r.Results) == 1 &&
 									show(fs, r.Results[0]) == "[]int{"+names[0]+", "+names[1]+"}" {
-									base, _ = p.tryCoq(s.Cond, vars, false)
+									base, _ = p.tryCoqWide(s.Cond, vars, false, wide)
 									src = show(fs, s.Cond)
 								}
 							}
@@ -134,15 +139,15 @@ func extractToxics(repo string, o *out) {
 									call := find(a.Rhs[0], func(x ast.Node) bool { _, ok := isCall(fs, x, "rand.Intn"); return ok })
 									if call != nil {
 										c := call.(*ast.CallExpr)
-										guard, _ = p.tryCoq(s.Cond, vars, false)
-										randn, _ = p.tryCoq(c.Args[0], vars, false)
+										guard, _ = p.tryCoqWide(s.Cond, vars, false, wide)
+										randn, _ = p.tryCoqWide(c.Args[0], vars, false, wide)
 										v2 := map[string]string{show(fs, c): "r", "mid": "mid"}
 										for k, v := range vars {
 											v2[k] = v
 										}
-										rhs, _ := p.tryCoq(a.Rhs[0], v2, false)
+										rhs, _ := p.tryCoqWide(a.Rhs[0], v2, false, wide)
 										if rhs != "" {
-											adj = "(mid + " + rhs + ")"
+											adj = "(wrap64 (mid + " + rhs + "))"
 										}
 									}
 								}
@@ -150,7 +155,7 @@ func extractToxics(repo string, o *out) {
 						}
 					case *ast.AssignStmt:
 						if s.Tok == token.DEFINE && len(s.Lhs) == 1 && show(fs, s.Lhs[0]) == "mid" {
-							mid, _ = p.tryCoq(s.Rhs[0], vars, false)
+							mid, _ = p.tryCoqWide(s.Rhs[0], vars, false, wide)
 						}
 					}
 				}
@@ -162,6 +167,52 @@ func extractToxics(repo string, o *out) {
 		o.emit("slicer_rand_guard", "(var : Z) ", "bool", guard, "(0 <? var)", "", "")
 		o.emit("slicer_rand_n", "(var : Z) ", "Z", randn, "(var * 2)", "", "")
 		o.emit("slicer_mid_adj", "(mid r var : Z) ", "Z", adj, "(mid + (r - var))", "", "")
+		// optional clamp of the split point:  if C1 { mid = E1 } else if C2 { mid = E2 }
+		clamp := "mid"
+		if fd := p.method("SlicerToxic", "chunk"); fd != nil && fd.Body != nil {
+			var names []string
+			for _, f := range fd.Type.Params.List {
+				for _, n := range f.Names {
+					names = append(names, n.Name)
+				}
+			}
+			if len(names) == 2 {
+				vars := map[string]string{names[0]: "start", names[1]: "end_", "mid": "mid"}
+				var conv func(s *ast.IfStmt) string
+				conv = func(s *ast.IfStmt) string {
+					if len(s.Body.List) != 1 {
+						return ""
+					}
+					a, ok := s.Body.List[0].(*ast.AssignStmt)
+					if !ok || a.Tok != token.ASSIGN || show(fs, a.Lhs[0]) != "mid" {
+						return ""
+					}
+					c, _ := p.tryCoq(s.Cond, vars, false)
+					e, _ := p.tryCoq(a.Rhs[0], vars, false)
+					if c == "" || e == "" {
+						return ""
+					}
+					rest := "mid"
+					if ei, ok := s.Else.(*ast.IfStmt); ok {
+						rest = conv(ei)
+						if rest == "" {
+							return ""
+						}
+					} else if s.Else != nil {
+						return ""
+					}
+					return "(if " + c + " then " + e + " else " + rest + ")"
+				}
+				for _, st := range fd.Body.List {
+					if is, ok := st.(*ast.IfStmt); ok {
+						if r := conv(is); r != "" {
+							clamp = r
+						}
+					}
+				}
+			}
+		}
+		o.emit("slicer_clamp", "(start end_ mid : Z) ", "Z", clamp, "mid", "", "")
 	}
 	// slicer delay unit
 	{
@@ -193,6 +244,16 @@ func extractToxics(repo string, o *out) {
 					}
 				case *ast.IfStmt:
 					if len(s.Body.List) == 1 {
+						if a, ok := s.Body.List[0].(*ast.AssignStmt); ok && a.Tok == token.ASSIGN && len(a.Lhs) == 1 && s.Else == nil {
+							// if cond { x = e }  ->  x := if cond then e else x
+							lhs := show(fs, a.Lhs[0])
+							c, _ := p.tryCoq(s.Cond, vars, true)
+							e, _ := p.tryCoq(a.Rhs[0], vars, true)
+							if old, ok := vars[lhs]; ok && c != "" && e != "" {
+								vars[lhs] = "(if " + c + " then " + e + " else " + old + ")"
+							}
+							continue
+						}
 						if a, ok := s.Body.List[0].(*ast.AssignStmt); ok && a.Tok == token.ADD_ASSIGN {
 							call := find(a.Rhs[0], func(x ast.Node) bool { _, ok := isCall(fs, x, "rand.Int63n"); return ok })
 							if call != nil {
